@@ -160,11 +160,22 @@ func VerifH_C16_rules() {
 	cond["z"] = "1"
 	cond["m"] = "2"
 	cond["a"] = "3"
+	// a condition with the empty value is how "events that carry no such field" are selected today
+	// (an absent field reads as the empty string), e.g. {k8s_container: ""}
+	cond["e"] = ""
 	r := newRule(cond, complexLimit{value: 1, kind: limitKindCount}, 0)
 	vals := []string{"1", "2", "3", "9"}
 	vz, vm, va := vals[vf.Choose("z", 4)], vals[vf.Choose("m", 4)], vals[vf.Choose("a", 4)]
-	ev := verifEvent(`{"z":"`+vz+`","m":"`+vm+`","a":"`+va+`"}`, 1)
-	want := vz == "1" && vm == "2" && va == "3"
+	doc := `{"z":"` + vz + `","m":"` + vm + `","a":"` + va + `"`
+	eKind := vf.Choose("e", 3) // absent, present and empty, present with a value
+	switch eKind {
+	case 1:
+		doc += `,"e":""`
+	case 2:
+		doc += `,"e":"x"`
+	}
+	ev := verifEvent(doc+`}`, 1)
+	want := vz == "1" && vm == "2" && va == "3" && eKind != 2
 	if vf.Param("twin", 0) == 1 {
 		want = !want
 	}
@@ -329,5 +340,40 @@ func VerifH_C16_pluginRules() {
 		if !want {
 			vf.Reach("throttled")
 		}
+	}
+}
+
+// C16.H1b: bucket intervals that are not a whole number of seconds: within one interval of wall-clock time
+// a key gets one budget, and the next interval starts a fresh one.
+func VerifH_C16_bucketIntervals() {
+	ivals := []time.Duration{100 * time.Millisecond, time.Second, 1500 * time.Millisecond, 2500 * time.Millisecond, time.Minute, 90 * time.Second}
+	ival := ivals[vf.Choose("bucket-interval", len(ivals))]
+	limit := int64(1 + vf.Choose("limit", 2))
+	base := time.Unix(0, (int64(1700000000)*int64(time.Second)/int64(ival))*int64(ival)) // aligned to the interval
+	now := base
+	lim := newInMemoryLimiter(&limiterConfig{bucketsCount: 2, bucketInterval: ival},
+		&complexLimit{value: limit, kind: limitKindCount}, &limitDistributionMetrics{}, func() time.Time { return now })
+	offs := []time.Duration{0, ival / 3, ival / 2, 2 * ival / 3, ival - time.Nanosecond, ival, ival + ival/2}
+	seen := map[int]int64{}
+	last := 0
+	for i := 0; i < vf.Param("K", 4); i++ {
+		k := last + vf.Choose("later", len(offs)-last) // non-decreasing times
+		last = k
+		now = base.Add(offs[k])
+		id := 0
+		if offs[k] >= ival {
+			id = 1
+		}
+		allowed := lim.isAllowed(&pipeline.Event{Size: 1}, now)
+		want := seen[id]+1 <= limit
+		seen[id]++
+		if vf.Param("twin", 0) == 1 {
+			vf.Assert(allowed != want, "one-budget-per-bucket-interval")
+			continue
+		}
+		vf.Assert(allowed == want, "one-budget-per-bucket-interval")
+	}
+	if seen[1] > 0 {
+		vf.Reach("next-interval")
 	}
 }
